@@ -10,7 +10,7 @@ type weights map[string]int
 
 func baseWeights() weights {
 	return weights{"send": 18, "block": 28, "relay": 26, "dup": 5, "replay": 4, "corrupt": 5, "advance": 4, "drop": 1, "partition": 1,
-		"stall": 1, "skew": 1, "crash": 2, "adv": 2, "advmsg": 1, "gov": 2, "export": 1, "pump": 6}
+		"stall": 1, "skew": 1, "crash": 2, "adv": 2, "advmsg": 1, "gov": 2, "export": 1, "pump": 6, "batch": 2}
 }
 
 func focusWeights(focus string) weights {
@@ -23,7 +23,7 @@ func focusWeights(focus string) weights {
 	case "C03":
 		w["send"], w["gov"], w["crash"], w["pump"] = 24, 4, 3, 10
 	case "C04":
-		w["send"], w["crash"], w["relay"] = 34, 3, 14
+		w["send"], w["crash"], w["relay"], w["batch"] = 34, 3, 14, 8
 	case "C05":
 		w["dup"], w["replay"], w["corrupt"], w["pump"] = 12, 10, 8, 10
 	case "C06":
@@ -63,7 +63,7 @@ func (Scenario) Generate(rng *rand.Rand, focus, tier string) kernel.Plan {
 	}
 	var keys []string
 	total := 0
-	for _, k := range []string{"send", "block", "relay", "dup", "replay", "corrupt", "advance", "drop", "partition", "stall", "skew", "crash", "adv", "advmsg", "gov", "export", "pump"} {
+	for _, k := range []string{"send", "block", "relay", "dup", "replay", "corrupt", "advance", "drop", "partition", "stall", "skew", "crash", "adv", "advmsg", "gov", "export", "pump", "batch"} {
 		keys = append(keys, k)
 		total += w[k]
 	}
@@ -94,7 +94,7 @@ func (Scenario) Generate(rng *rand.Rand, focus, tier string) kernel.Plan {
 			add("advance", 12)
 		}
 		for k := 0; k < 3; k++ {
-			add("send", rng.Int63n(nc), rng.Int63n(4), rng.Int63n(3), rng.Int63n(16), rng.Int63n(5), rng.Int63n(7), 1+rng.Int63n(3), rng.Int63n(6))
+			add("send", rng.Int63n(nc), rng.Int63n(4), rng.Int63n(3), rng.Int63n(16), rng.Int63n(5), rng.Int63n(7), 1+rng.Int63n(3), rng.Int63n(6)+7*rng.Int63n(6))
 		}
 		for k := 0; k < 4; k++ {
 			add("pump", b)
@@ -112,7 +112,9 @@ func (Scenario) Generate(rng *rand.Rand, focus, tier string) kernel.Plan {
 		}
 		switch k {
 		case "send":
-			add("send", rng.Int63n(nc), rng.Int63n(4), invalidDst(), rng.Int63n(16), rng.Int63n(7), rng.Int63n(7), rng.Int63n(4)*rng.Int63n(2), rng.Int63n(6))
+			add("send", rng.Int63n(nc), rng.Int63n(4), invalidDst(), rng.Int63n(16), rng.Int63n(7), rng.Int63n(7), rng.Int63n(4)*rng.Int63n(2), rng.Int63n(6)+7*rng.Int63n(6))
+		case "batch":
+			add("batch", rng.Int63n(nc), rng.Int63n(4), rng.Int63n(2), rng.Int63n(3), rng.Int63n(2), rng.Int63n(3), rng.Int63n(2))
 		case "block":
 			add("block", rng.Int63n(nc), 1+rng.Int63n(6), rng.Int63(), rng.Int63n(2))
 		case "relay":
